@@ -39,11 +39,12 @@ PROPS = {
         explanation='Adjacency logic proved; storage plumbing and whole operations bounded. Sequential contracts; concurrency out of reach of this technique.',
     ),
     'C08': dict(
-        v=[], k=[], b=['c08_rollback'],
+        v=['C08_restore'], k=[], b=['c08_rollback'],
+        pairs={'C08_restore': ['bounded:c08_rollback']},
         level='other',
-        technique='bounded native contract checks of snapshot_bytes/restore_from_bytes, CheckpointManager create/rollback/list and the QueryRouter CHECKPOINT / ROLLBACK TO / CHECKPOINTS statements: a ~100-probe view of tables, graph, embeddings and store keys is recorded at every checkpoint and compared after every rollback, over all short statement scripts; the code is async over tokio + a blob store and outside the Verus/Kani subset, so no deductive obligation is claimed',
+        technique='Verus: TensorStore::restore_from_bytes (the function a rollback runs) extracted and proved against a ghost key/value view of the router: a bad image changes nothing, afterwards every live key is an image key with the image value (later data gone), every image entry the router accepts is present (nothing missing), tables equal the image tables; bounded native contract checks of snapshot_bytes/restore_from_bytes, CheckpointManager create/rollback/list and the QueryRouter CHECKPOINT / ROLLBACK TO / CHECKPOINTS statements: a ~100-probe view of tables, graph, embeddings and store keys is recorded at every checkpoint and compared after every rollback, over all short statement scripts; the checkpoint manager and router statements are async over tokio + a blob store and outside the Verus/Kani subset',
         claim='BOUNDED: on 32 pre-states x all enabled scripts of <= 2 statements (14 statement kinds) with a checkpoint before every statement: the view after restore / rollback equals the view at the checkpoint for every core read, further writes succeed, retention lists exactly the newest n, every listed checkpoint rolls back to its recorded view. Engine-resident indexes/counters, lossy 384-d slab embeddings and repeated rollbacks are open known findings.',
-        explanation='Bounded stand-in only (no deductive obligation).',
+        explanation='restore_from_bytes proved at the level of the key/value view (slab internals, engine-resident indexes and the snapshot codec are outside it); everything else bounded.',
     ),
     'C09': dict(
         v=['C09_locks'], k=[], b=['c09_reltx'],
